@@ -86,6 +86,8 @@ CONFIGS = {
  "UQ": ("w.undelQueue", "qframe",
         {"payBucket", "queueUndelegation", "undelegate", "msgUndelegate", "completeUnbondings", "slashUndelegations", "slashValidator",
          "beforeValidatorSlashed", "endBlocker"}),
+ "Staking": ("(w.staking, w.time, w.height)", "sframe",
+             {"setSVal", "stakingDelegate", "stakingUnbond", "rebalanceBondTokenWeights", "rebalanceHook", "endBlocker"}),
  "Redel": ("(w.redels, w.redelQueue, w.redelIndex)", "rframe",
            {"queueRedelegation", "addRedelegation", "redelegate", "msgRedelegate", "completeRedelegations", "endBlocker"}),
 }
